@@ -8,6 +8,7 @@ package main
 // BasicLit.End, CommentGroup lists -- is go/ast's own code executed from SSA.
 
 import (
+	"go/format"
 	"go/types"
 	"path/filepath"
 	"sort"
@@ -24,11 +25,66 @@ type symFS struct {
 	dirs   map[string]bool
 	writes []string
 	parse  map[string]parseRes
+	bases  map[*Value]int // next file base of every token.FileSet handed to the parser
+}
+
+// shiftPos returns a deep copy of an AST value with every token.Pos other than NoPos moved by delta
+// (a file added to a FileSet that already holds files starts at a higher base). Sharing between
+// pointers is preserved.
+func shiftPos(v Value, t types.Type, delta int, seen map[*Value]*Value) Value {
+	if n, ok := t.(*types.Named); ok && n.Obj().Pkg() != nil && n.Obj().Pkg().Path() == "go/token" && n.Obj().Name() == "Pos" {
+		i := v.(Int)
+		if i.S == nil && i.C != 0 {
+			i.C = uint64(int64(i.C) + int64(delta))
+		}
+		return i
+	}
+	switch u := t.Underlying().(type) {
+	case *types.Pointer:
+		p, _ := v.(*Value)
+		if p == nil {
+			return v
+		}
+		if q, ok := seen[p]; ok {
+			return q
+		}
+		q := new(Value)
+		seen[p] = q
+		*q = shiftPos(*p, u.Elem(), delta, seen)
+		return q
+	case *types.Struct:
+		st, ok := v.(Struct)
+		if !ok {
+			return v
+		}
+		out := make(Struct, len(st))
+		for i := range st {
+			out[i] = shiftPos(st[i], u.Field(i).Type(), delta, seen)
+		}
+		return out
+	case *types.Slice:
+		sl, ok := v.([]Value)
+		if !ok || sl == nil {
+			return v
+		}
+		out := make([]Value, len(sl))
+		for i := range sl {
+			out[i] = shiftPos(sl[i], u.Elem(), delta, seen)
+		}
+		return out
+	case *types.Interface:
+		itf, ok := v.(Iface)
+		if !ok || itf.T == nil {
+			return v
+		}
+		return Iface{T: itf.T, V: shiftPos(itf.V, itf.T, delta, seen)}
+	}
+	return v
 }
 
 func (in *Interp) vfs() *symFS {
 	if in.fs == nil {
-		in.fs = &symFS{files: map[string]Str{}, dirs: map[string]bool{}, parse: map[string]parseRes{}}
+		in.fs = &symFS{files: map[string]Str{}, dirs: map[string]bool{}, parse: map[string]parseRes{}, bases: map[*Value]int{}}
 	}
 	return in.fs
 }
@@ -109,6 +165,25 @@ func init() {
 			}
 			panic(engineErr("parser.ParseFile: no parse result registered for " + path))
 		}
+		// like go/parser: the file is added to the FileSet (before parsing); its positions start at the set's
+		// next base, which is 1 only for the first file of a set
+		if fset, isP := a[0].(*Value); isP && fset != nil {
+			base := in.vfs().bases[fset]
+			if base == 0 {
+				base = 1
+			}
+			size := 0
+			if content, exists := in.vfs().files[path]; exists {
+				size = len(content.bytes())
+			}
+			in.vfs().bases[fset] = base + size + 1
+			if base != 1 && r.file != nil {
+				if fp, isF := r.file.(*Value); isF && fp != nil {
+					ft := in.prog.ImportedPackage("go/ast").Type("File").Type()
+					r.file = shiftPos(fp, types.NewPointer(ft), base-1, map[*Value]*Value{})
+				}
+			}
+		}
 		if e, isI := r.err.(Iface); isI && e.T != nil {
 			// like go/parser: the (possibly partial) AST is returned together with the error
 			if r.file == nil {
@@ -184,6 +259,95 @@ func init() {
 			out = append(out, Iface{T: dirEntryMarker, V: Native{V: fakeDirEntry{name: n, dir: names[n]}}})
 		}
 		return Tuple{out, nilError()}
+	})
+	// filepath.WalkDir / filepath.Walk over the in-memory tree, with the documented SkipDir / SkipAll contract:
+	// lexical order; SkipDir returned for a directory skips it, for a file skips the rest of its directory
+	walk := func(in *Interp, fr *frame, root string, fn Value, infoArg bool) Value {
+		f := in.vfs()
+		root = filepath.Clean(root)
+		skipDir := *in.frGlobal(fr, "io/fs", "SkipDir")
+		skipAll := *in.frGlobal(fr, "io/fs", "SkipAll")
+		same := func(a, b Value) bool {
+			x, ok1 := a.(Iface)
+			y, ok2 := b.(Iface)
+			return ok1 && ok2 && x.T != nil && y.T != nil && x.V == y.V
+		}
+		entry := func(name string, dir bool) Value {
+			if infoArg {
+				return Iface{T: fileInfoMarker, V: Native{V: fakeFileInfo{name: name, dir: dir}}}
+			}
+			return Iface{T: dirEntryMarker, V: Native{V: fakeDirEntry{name: name, dir: dir}}}
+		}
+		var rec func(path string, dir bool) Value // returns the error that ends the walk (nil Iface: go on)
+		rec = func(path string, dir bool) Value {
+			r := in.call(fr, 0, fn, []Value{mkStr(path), entry(filepath.Base(path), dir), nilError()})
+			if e, ok := r.(Iface); ok && e.T != nil {
+				if dir && same(r, skipDir) {
+					return nilError()
+				}
+				return r
+			}
+			if !dir {
+				return nilError()
+			}
+			names := map[string]bool{}
+			for p := range f.files {
+				if filepath.Dir(p) == path {
+					names[filepath.Base(p)] = false
+				}
+			}
+			for d := range f.dirs {
+				if d != path && filepath.Dir(d) == path {
+					names[filepath.Base(d)] = true
+				}
+			}
+			var sorted []string
+			for n := range names {
+				sorted = append(sorted, n)
+			}
+			sort.Strings(sorted)
+			for _, n := range sorted {
+				r := rec(filepath.Join(path, n), names[n])
+				if e, ok := r.(Iface); ok && e.T != nil {
+					if same(r, skipDir) {
+						break // returned for a file: the remaining entries of this directory are skipped
+					}
+					return r
+				}
+			}
+			return nilError()
+		}
+		isDir := f.dirs[root]
+		if _, isFile := f.files[root]; !isDir && !isFile {
+			r := in.call(fr, 0, fn, []Value{mkStr(root), Iface{}, in.mkError(fr, mkStr("lstat "+root+": no such file or directory"))})
+			if e, ok := r.(Iface); ok && e.T != nil && !same(r, skipDir) && !same(r, skipAll) {
+				return r
+			}
+			return nilError()
+		}
+		r := rec(root, isDir)
+		if same(r, skipDir) || same(r, skipAll) {
+			return nilError()
+		}
+		return r
+	}
+	reg("path/filepath.WalkDir", func(in *Interp, fr *frame, a []Value) Value {
+		return walk(in, fr, strArg(a[0]).mustConcrete(), a[1], false)
+	})
+	reg("path/filepath.Walk", func(in *Interp, fr *frame, a []Value) Value {
+		return walk(in, fr, strArg(a[0]).mustConcrete(), a[1], true)
+	})
+	// go/format.Source: the real formatter on concrete sources (sources with symbolic bytes end the path as unsupported)
+	reg("go/format.Source", func(in *Interp, fr *frame, a []Value) Value {
+		src, ok := valuesToStr(a[0].([]Value)).Concrete()
+		if !ok {
+			panic(engineErr("go/format.Source on a source with symbolic bytes"))
+		}
+		out, err := format.Source([]byte(src))
+		if err != nil {
+			return Tuple{[]Value(nil), in.mkError(fr, mkStr(err.Error()))}
+		}
+		return Tuple{bytesToValues(mkStr(string(out)).bytes()), nilError()}
 	})
 	reg("path/filepath.Glob", func(in *Interp, fr *frame, a []Value) Value {
 		pat := strArg(a[0]).mustConcrete()
